@@ -5,6 +5,7 @@ CONSTANTS
   Mode = "rotate"
   Variants = {1}
   KeyLens <- KeyLensAll
+  AddrMode = "off"
   TamperMode = "none"
   TamperVariants = {1, 4}
   TamperAllVariants = {}
